@@ -11,8 +11,11 @@ import Lattigo.Proofs.RGSW
 import Lattigo.Proofs.RGSW32
 import Lattigo.Proofs.BlindRotPhase
 import Lattigo.Proofs.BlindRotTable
+import Lattigo.Proofs.BlindRotMask
+import Lattigo.Proofs.RGSWShape
 import Lattigo.Props.C20Ring
 import Lattigo.Props.C20Noise
+import Lattigo.Props.C20Stack
 
 namespace Lattigo.Props.C20
 open Lattigo Lattigo.RGSW
@@ -350,6 +353,41 @@ theorem brk_keys_requested_subset (N : Nat) (a : List Nat) :
 
 example : stepOk 16 4 (Step.aut (galEl 16 3)) := Or.inl ⟨3, by decide, by decide, rfl⟩
 
+/-- `blindrot_exponent` for the masks of the MODEL'S `Evaluate`, no hypothesis on the sample: for every LWE sample
+    (`c1` any coefficients, any modulus `Q` — the modulus switch is exact integer rounding, `big.Int` in the
+    code, so no word-size / no-overflow condition enters), every list of requested slots and every mask
+    `slotMasks` derives from it, the schedule ends at `t ≡ 1`, `u ≡ b + ⟨a, s⟩ (mod 2N)`. -/
+theorem blindrot_exponent_model (k : Nat) (hk : 1 ≤ k) (Q : Nat) (c1 : List Nat) (idxs : List Nat)
+    (sI : Nat → Int) (b : Nat) :
+    let N := 2 ^ (k + 1)
+    ∀ ia ∈ slotMasks N (prepMask Q N c1) idxs,
+      let a := ia.2
+      let r := runExp sI (coreSchedule N a) (initExp N b)
+      ((r.1 : Int) : ZMod (2 * N)) = 1 ∧
+      ((r.2 : Int) : ZMod (2 * N)) =
+        (b : ZMod (2 * N)) +
+          ((List.range a.length).map fun j => ((a.getD j 0 : Nat) : ZMod (2 * N)) * ((sI j : Int) : ZMod (2 * N))).sum := by
+  intro N ia hia
+  have hN : 0 < N := Nat.pow_pos (by norm_num)
+  have hgood := goodMask_slotMasks N hN _ (goodMask_prepMask Q N hN c1) idxs ia hia
+  exact blindrot_exponent_mask k hk ia.2 sI b (goodMask_getD (2 * N) ia.2 hgood)
+
+/-- non-vacuity: a 61-bit LWE modulus with `N = 16` (`q·2N > 2^64`: a 64-bit `c·2N` would wrap), one slot -/
+example : (slotMasks 16 (prepMask 2305843009213693921 16 [2305843009213693920, 5, 1152921504606846960]) [0, 2]).length = 2 ∧
+    modSwitch 2305843009213693921 32 true 2305843009213693920 = 0 ∧
+    modSwitch 2305843009213693921 32 false 1152921504606846960 = 16 ∧
+    2305843009213693921 * 32 ≥ 2 ^ 64 := by
+  decide +kernel
+
+/-- the digit partition of the Q primes (`Par.group`): greedy — row `k` is in digit `k / (levelP+1)` (`k / 1`
+    without `P`), in no other, and that digit is among the `BaseRNSDecompositionVectorSize` digits.  The gadget
+    vector (`pgElt`), the decompositions and `Ct.addPlain` (`AddLazy(*Plaintext)`) all use this partition. -/
+theorem rgsw_digit_partition (p : Par) (k : Nat) (hk : k < p.qsQ.length) :
+    k ∈ p.group (k / p.gw) ∧ k / p.gw < p.rnsSize ∧ ∀ i, k ∈ p.group i → i = k / p.gw :=
+  p.group_partition k hk
+
+example : (Par.group { qsQ := [3, 5, 7, 11], qsP := [13, 17, 19], n := 2, w := 0 } 1 = [3]) := by decide
+
 end Lattigo.Props.C20
 
 #print axioms Lattigo.Props.C20.rgsw_rows_phase
@@ -370,3 +408,5 @@ end Lattigo.Props.C20
 #print axioms Lattigo.Props.C20.blindrot_lookup
 #print axioms Lattigo.Props.C20.blindrot_lookup_endpoint
 #print axioms Lattigo.Props.C20.brk_keys_requested_subset
+#print axioms Lattigo.Props.C20.blindrot_exponent_model
+#print axioms Lattigo.Props.C20.rgsw_digit_partition
